@@ -129,16 +129,38 @@ AcctSeqs(L) == { << [op |-> "create350", login |-> L, new |-> <<>>] >>,
                  << [op |-> "delete351", login |-> L, new |-> <<>>] >> }
 ReqsAcct == {Rq("acct", o, Absent, Absent, Absent, Absent, Absent) @@ [ops |-> sq] : o \in {0, 1}, sq \in UNION {AcctSeqs(L) : L \in AcctLogins}}
 
+(* short histories for what creates links or relocates entries: make an alias in a nested folder, then move / rename
+   the alias, its target or the folder that holds it, then read through it (list, get-info, download, folder download) *)
+Abs3 == <<97,98,115>>
+SeqOf(steps) == Rq("seq", 1, Absent, Absent, Absent, Absent, Absent) @@ [steps |-> steps]
+ReadsAt(dir, n) ==
+  LET P == IF dir = <<>> THEN Absent ELSE EncPath(dir)
+      up == IF dir = <<>> THEN Rq("dlfolder", 1, Absent, Absent, Absent, Absent, Absent)
+            ELSE Rq("dlfolder", 1, IF Len(dir) = 1 THEN Absent ELSE EncPath(SubSeq(dir, 1, Len(dir) - 1)), dir[Len(dir)], Absent, Absent, Absent)
+  IN {Rq("list", 1, P, Absent, Absent, Absent, Absent), Rq("info", 1, P, n, Absent, Absent, Absent),
+      Rq("download", 1, P, n, Absent, Absent, Absent), up}
+AA == <<A, A>>
+ReqsSeq ==
+  UNION {
+    LET mk == Rq("alias", 1, Absent, n, Absent, EncPath(AA), Absent)       \* root/n  ->  alias a/a/n
+        relocs == { <<Rq("move", 1, EncPath(AA), n, Absent, EncPath(<<A>>), Absent), <<A>>, n>>,
+                    <<Rq("move", 1, EncPath(AA), n, Absent, Absent, Absent), <<>>, n>>,
+                    <<Rq("rename", 1, EncPath(AA), n, New, Absent, Absent), AA, New>>,
+                    <<Rq("move", 1, Absent, n, Absent, EncPath(<<A>>), Absent), AA, n>>,
+                    <<Rq("rename", 1, Absent, n, New, Absent, Absent), AA, n>>,
+                    <<Rq("rename", 1, EncPath(<<A>>), A, New, Absent, Absent), <<A, New>>, n>> }
+    IN UNION {{SeqOf(<<mk, rl[1], rd>>) : rd \in ReadsAt(rl[2], rl[3])} : rl \in relocs}
+    : n \in {Abs3, Btxt, A} }
 ReqsShared == ReqsList \cup ReqsK2 \cup ReqsRename \cup ReqsMove \cup ReqsUpFolder
 (* the same requests from a client that is confined to its OWN file root (Account.FileRoot = W/userroot): the
    server-wide root is then outside for this client.  Contexts: top level and one folder down. *)
 NearPaths == {Absent, EncPath(<<A>>), EncPath(<<DotDot>>)}
 ReqsUr == {[r EXCEPT !.ur = 1] : r \in {x \in ReqsShared : x.occ = 0 /\ x.path \in NearPaths /\ x.newpath \in NearPaths \cup {Absent}}}
           \cup {[r EXCEPT !.ur = 1, !.occ = 0] : r \in {x \in ReqsShared : x.occ = 1 /\ x.kind \in K2Read \cup {"list"} /\ x.path \in NearPaths}}
-Reqs07 == ReqsShared \cup ReqsAcct \cup ReqsUr
+Reqs07 == ReqsShared \cup ReqsAcct \cup ReqsUr \cup ReqsSeq
 
 (* the places a leaving path would land on, occupied in sandbox variant occ = 1 *)
-Landing == {SbxP \o <<X>>, SbxP \o <<<<97,98,115>>>>, SbxP \o <<Config, X \o Yaml>>, <<L1, L2, L3, X>>, <<L1, L2, X>>,
+Landing == {SbxP \o <<X>>, SbxP \o <<<<97,98,115>>>>, SbxP \o <<Config, X \o Yaml>>, <<L1, L2, L3, X>>, <<L1, L2, X>>, <<L1, L2, L3, Abs3>>,
             SbxP \o <<RootBak, <<110>>>>, SbxP \o <<Config, UsersX, A \o Yaml>>}
 TreeOcc(o) == IF o = 0 THEN Tree07 ELSE [q \in DOMAIN Tree07 \cup Landing |-> IF q \in Landing THEN FileN(-1) ELSE Tree07[q]]
 (* the sandbox of a confined client: the tree lives under W/userroot, the server-wide root holds canaries *)
@@ -177,7 +199,7 @@ Next07 == /\ req = NoReq
 
 Contained07 == req # NoReq => ContainedRes(TreeFor(req), res, RootFor(req), usersp)
 (* the law itself: a cleaned path never leaves its base, whatever the components *)
-CleanStaysInside == req # NoReq /\ req.kind # "acct" /\ req.kind # "upfolder" =>
+CleanStaysInside == req # NoReq /\ req.kind \notin {"acct", "upfolder", "seq"} =>
                       LET pr == ParsePath(req.path, {}) IN Inside(Resolve(RootFor(req), pr.items, Val(req.name)), RootFor(req))
 Emit07 == PrintT("B " \o ToJson(req'))
 
